@@ -3,7 +3,7 @@ import SerfModel.Model.Keyring
 /-!
 C22 checker.  A real Serf node with a memberlist keyring and a keyring file.
 
-  `init <keys> <0|1>`             initial ring (primary first; `_` = no encryption), keyring file configured?
+  `init <keys> <0|1|2>`           initial ring (primary first; `_` = no encryption), keyring file configured? (2: configured, not yet written)
   `install|use|remove <hexkey>`   the request, through `KeyManager` (a real internal query, handled by
                                   handleInstallKey / handleUseKey / handleRemoveKey, response awaited)
   `raw install|use|remove <hex>`  an internal query with an empty / undecodable payload, injected through NotifyMsg
@@ -25,6 +25,9 @@ structure St where
   m : Option Node := none
   implRing : String := "_"
   implFile : String := "NONE"
+  /-- the keyring file is expected to exist and match: from the start when the node started on it, otherwise
+  (file configured but not yet written: init mode 2) from the first request answered `ok` on -/
+  fileDue : Bool := true
   deriving Inhabited
 
 def parseKeys (s : String) : Option (List Key) :=
@@ -69,7 +72,7 @@ def monitor (s : St) (hasFile : Bool) (isInit : Bool) (i : Impl) : Option (Strin
     some ("primary-not-first", s!"GetPrimaryKey {i.primary} is not the first key of {i.ring}")
   else if !isInit && i.status != "ok" && (i.ring != s.implRing || i.file != s.implFile) then
     some ("rejected-changed", s!"request answered {i.status} changed ring {s.implRing} -> {i.ring} / file {s.implFile} -> {i.file}")
-  else if hasFile && i.ring != "_" && i.file != i.ring then
+  else if hasFile && (s.fileDue || (!isInit && i.status == "ok")) && i.ring != "_" && i.file != i.ring then
     some ("file-mismatch", s!"keyring file loads {i.file}, the node's ring is {i.ring}")
   else none
 
@@ -82,7 +85,7 @@ def opOf? : String → Option Op
 def step (s : St) (op : List String) (impl : String) : LineOut St :=
   let i? := parseImpl impl
   let upd (s : St) : St := match i? with
-    | some i => { s with implRing := i.ring, implFile := i.file }
+    | some i => { s with implRing := i.ring, implFile := i.file, fileDue := s.fileDue || (i.status == "ok" && op.head? != some "init") }
     | none => s
   let mon (hasFile isInit : Bool) := match i? with
     | some i => monitor s hasFile isInit i
@@ -92,17 +95,19 @@ def step (s : St) (op : List String) (impl : String) : LineOut St :=
     match parseKeys ks with
     | none => { state := s, model := some "bad-op" }
     | some keys =>
-      let hasFile := hf == "1"
+      let hasFile := hf == "1" || hf == "2"   -- 2: the file is configured but does not exist yet
       -- the harness writes the initial file and loads it with the real loader
       let ring? : Option Ring := if keys.isEmpty then some [] else load keys
       match ring? with
       | none => { state := s, model := some "init-failed" }
       | some ring =>
-        let n : Node := { ring := ring, file := if hasFile && !keys.isEmpty then some keys else none, hasFile := hasFile }
+        let n : Node := { ring := ring, file := if hf == "1" && !keys.isEmpty then some keys else none, hasFile := hasFile }
         let m := if impl.startsWith "init-failed" then
             some ("valid-file-refused", s!"the loader refused a keyring file of {keys.length} valid entries")
-          else mon hasFile true
-        { state := upd { s with m := some n }, model := some (showNode "ok" n), monitor := m }
+          else match i? with
+            | some i => monitor { s with fileDue := hf != "2" } hasFile true i
+            | none => some ("malformed", impl)
+        { state := upd { s with m := some n, fileDue := hf != "2" }, model := some (showNode "ok" n), monitor := m }
   | ["restart"] =>
     match s.m with
     | none => { state := s, model := some "bad-op" }
